@@ -4,6 +4,7 @@ CONSTANT MCObj = {"o1", "o2"}
 CONSTANT MCHnd = {"h1"}
 CONSTANT MCBlk = {1, 2, 3}
 CONSTANT MCTokenFirst = TRUE
+CONSTANT MCFailureTokens = TRUE
 CONSTANT MCReqs = {"okA", "okA2", "hashA", "okB", "badchar", "unknown", "star0", "star1", "methfail", "nullphrase", "nullsetting", "longphrase"}
 INVARIANT Export
 INVARIANT TypeOK FailClosed NoStale TokenShape ShortSizes WipedIffValidated ResultIsFunction GrowErasedFirst
